@@ -2,22 +2,53 @@ from driver import Job
 
 SPEC = {
     "engine": "E1", "level": "exploration",
-    "technique": "replay monitor (identity diffs a node serves vs canonical identity roots, incl. reorged servers) + export/import differential + corruption injection on snapshot archives",
+    "technique": "replay monitor (identity diffs a node serves vs canonical identity roots, incl. reorged servers) + export/import differential + corruption injection on snapshot archives "
+                 "+ the REAL protocol.fastSync driven over two real gossip handlers (wire path included) with replay / state-equality / continuation oracles on the fast-synced node "
+                 "and on a second-generation node synced from it",
     "level_text": "(a) what a node stores and serves per height (GetIdentityDiff, as provideBlocks) is replayed with fast sync's own sequence on a "
                   "follower identity tree for every canonical height, for a straight server and a server that reorganised; (b) WriteSnapshot2 "
                   "at retained heights and of large synthetic states (multi-chunk, empty values, contract stores) imported with "
                   "RecoverSnapshot2 must reproduce root and full contents; (c) byte/bit flips stratified over the archive, truncations at "
                   "512-byte boundaries and random offsets, chunk drop/duplicate/reorder/foreign chunk: either accepted with exactly the "
-                  "advertised root and contents, or refused with an empty target db; a panic is a violation; (d) an end-to-end fast sync (fast.go's functions in fast.go's order) from a straight and a reorged server must "
-                  "yield exactly the canonical state and a node that keeps accepting the canonical blocks.",
-    "level_note": "the state snapshot path is RecoverSnapshot2 as fast sync calls it; snapshot download/manifest handling over IPFS is not executed",
-    "rule": "case = one height replayed or one import attempt; distinct_nontrivial = distinct non-empty diffs + distinct corrupted archives (snapshot, class, content hash)",
-    "jobs": [Job("sync", "verifsim", "^TestVerifC11$", shards=(8, 16), timeout=(900, 3600))],
+                  "advertised root and contents, or refused with an empty target db; a panic is a violation; (d) an end-to-end fast sync (fast.go's functions in fast.go's order, emulated by hand) "
+                  "from a straight and a reorged server must yield exactly the canonical state and a node that keeps accepting the canonical blocks; "
+                  "(e) job 'realsync': the real fastSync object (preConsuming, processBatch -> validateHeader / applyDeferredBlocks / reload+ban, postConsuming -> "
+                  "SnapshotManager.DownloadSnapshot, RecoverSnapshot2, SaveForcedVersion, AtomicSwitchToPreliminary) of a fresh or partially full-synced node, fed through the "
+                  "real wire path (GetBlocksRange -> peer writer -> msgio/S2 bytes -> the server handler's handle/provideBlocks -> bytes -> the node's handle -> batch) by three kinds of "
+                  "servers (straight, reorganised, certificates kept as a consensus follower keeps them so that cert-less headers are deferred), with the downloader's and with small "
+                  "batch sizes, with the sync interrupted and resumed by a new applier (also across a restart of the node on its surviving db). On the synced node: for EVERY synced "
+                  "height the stored header is the canonical one and the stored identity diff (chain.GetIdentityDiff = what it serves), replayed in order on the identity state of the "
+                  "start height, reproduces the canonical identity root; head / roots / full contents of both trees equal the fully synced node's at the snapshot height; the node "
+                  "accepts the following canonical blocks and ends in the same state; a second-generation node fast-syncs by the same real path FROM the fast-synced node (from the "
+                  "headers, certificates and diffs that node stores and serves) and must pass the same oracles. A refused sync of correct artifacts is a violation.",
+    "level_note": "the state snapshot path is RecoverSnapshot2 as fast sync calls it; in (e) the snapshot travels through SnapshotManager.DownloadSnapshot from the in-memory ipfs stub, "
+                  "but the manifest is built by the harness from the serving node's own WriteSnapshot2 export (manifest gossip / best-manifest selection and real IPFS are not executed), "
+                  "and the ~10 lines of Downloader.Load that cut the range into batches are mirrored (batches are requested and consumed one at a time). libp2p host / connection / stream "
+                  "are in-memory fakes. The certificate retention rule of the sparse-certificate server (consensus/engine.go + IsPermanentCert) is mirrored with a certificate range of 40.",
+    "rule": "case = one height replayed, one import attempt, one real fast sync or one following block applied on a fast-synced node; distinct_nontrivial = distinct non-empty diffs "
+            "(per job / generation) + distinct corrupted archives (snapshot, class, content hash) + distinct real syncs (generation, server, world, start height, snapshot height, batch size, interruption)",
+    "jobs": [Job("sync", "verifsim", "^TestVerifC11$", shards=(8, 16), timeout=(900, 3600)),
+             Job("realsync", "protocol", "^TestVerifC11FastSync$", shards=(6, 12), timeout=(900, 3600), extra_tags="c11")],
     "floors": {"diffs_replayed": (2000, 20000), "diffs_nonempty": 200, "server_reorgs": 100, "snapshot_roundtrips": 20, "max_chunks_in_one_archive": 2,
                "corruption:byte-flip": (2000, 20000), "corruption:truncate-512": 300, "corruption:truncate-random": 100, "corruption:chunk-drop": 20,
                "corruption:chunk-duplicate": 20, "corruption:chunk-reorder": 4, "corruption:chunk-from-other-archive": 10,
                "outcome:refused": 1000, "outcome:accepted": 50,
-               "fast_syncs_completed:straight-server": 20, "fast_syncs_completed:reorged-server": 20},
+               "fast_syncs_completed:straight-server": 20, "fast_syncs_completed:reorged-server": 20,
+               # job realsync (real protocol.fastSync)
+               "real_fast_syncs": (80, 450), "real_fast_syncs:gen2": (40, 220),
+               "real_fast_syncs_completed:gen1:straight-server": (12, 70), "real_fast_syncs_completed:gen1:reorged-server": (12, 70),
+               "real_fast_syncs_completed:gen1:sparse-cert-server": (12, 70),
+               "real_fast_syncs_completed:gen2:straight-server": (12, 70), "real_fast_syncs_completed:gen2:reorged-server": (12, 70),
+               "real_fast_syncs_completed:gen2:sparse-cert-server": (12, 70),
+               "real_sync_heights": (10000, 100000), "real_sync_diffs_nonempty": (1200, 13000),
+               "real_sync_diffs_nonempty:empty-block": (150, 2000), "real_sync_diffs_nonempty:proposed-block-without-txs": (80, 1400),
+               "real_sync_validation_finished_blocks": (80, 1400), "real_sync_snapshot_flag_blocks": (400, 6000),
+               "real_sync_heights_served_without_cert": (500, 12000), "real_sync_batches_ending_with_deferred_headers": (6, 150),
+               "real_sync_resumed": (15, 120), "real_sync_resumed_after_restart": (5, 50),
+               "real_sync_state_compared_with_full_node": (80, 450), "real_sync_following_blocks_accepted": (1500, 12000),
+               "real_sync_blocks_with_body_fetched_by_bloom": (1000, 13000)},
     "parallel": 16,
-    "assumptions": ["consensus config V12"],
+    "assumptions": ["consensus config V12",
+                    "job realsync: wall-clock timeouts of the real code (20 s per block in processBatch, 20 s handshake) that expire without a preceding refusal by the node give an "
+                    "inconclusive result, not a violation"],
 }
